@@ -543,6 +543,29 @@ class DFA:
     def chars_in(alpha, atoms):
         return DFA(alpha, [{a: 0 for a in atoms}], 0, (0,))
 
+    @staticmethod
+    def union_many(alpha, dfas):
+        """Union of many DFAs through one NFA (cheaper than a chain of products)."""
+        dfas = list(dfas)
+        if not dfas:
+            return DFA.empty(alpha)
+        nfa = _NFA()
+        init = nfa.new()
+        accepts = set()
+        for d in dfas:
+            off = len(nfa.eps)
+            for _ in d.trans:
+                nfa.new()
+            for s_, row in enumerate(d.trans):
+                by_t = {}
+                for a, t in row.items():
+                    by_t.setdefault(t, set()).add(a)
+                for t, atoms in by_t.items():
+                    nfa.trans[off + s_].append((frozenset(atoms), off + t))
+            nfa.eps[init].append(off + d.start)
+            accepts.update(off + s_ for s_ in d.accept)
+        return _determinize(nfa, init, accepts, alpha)
+
     # ---- algebra -------------------------------------------------------------
     def _product(self, other, op):
         if self.alpha is not other.alpha:
